@@ -3,18 +3,25 @@
 
 Sub-checks (case kinds):
   nest    (a) re-entrancy: one (outer, inner) pair of formulas; the inner evaluation is interposed at every
-          callback position of the outer one, on every target, to depth 2
-  bind    (b) isolation of bindings: variables / functions / listeners of P are invisible on Q
+          callback position of the outer one, on every target (other / same / newly constructed parser), and to
+          depth 2 with a third formula; a sample of the runs is compared with the Lean interleaving model
+          (`interleave.batch`)
+  bind    (b) isolation of bindings: variables / predefined names / functions / builtin names / listeners
+          (on, once) of P and a journal listener that edits the argument list it is handed are invisible on a Q
+          created before and a Q created after; oracle only
   sched   (c) threads on distinct parsers under a harness-controlled scheduler: every lexer operation
           (`Lexer.input`, `Lexer.token`) waits for its turn according to the schedule; compared with the Lean
           interleaving model (`interleave.run owned …`)
-  stress  (c) free-running threads with a 1 µs switch interval
-  sheet   (a)+(c) a spreadsheet-style host on long-lived parsers: cells hold formulas, the callCellValue listener
+  stress  (c) free-running threads with a 1 µs switch interval while a further thread constructs parsers; oracle only
+  cold    (c) the first evaluations of a fresh interpreter process, on distinct parsers in threads released
+          together; oracle only
+  sheet   (d) = (a)+(c) a spreadsheet-style host on long-lived parsers: cells hold formulas, the callCellValue listener
           resolves a cell by evaluating its formula re-entrantly and hands the inner RESULT (blank, 0, FALSE, text,
           an error) to the setter; the callRangeValue listener walks the coordinates of the Cell objects it was
           given progressively and resolves every cell the same way, so that complete evaluations (nested on the same /
           another parser, or in another thread) run between two uses of the objects it holds; compared with an
-          independent bottom-up reference in which no evaluation is nested in another one
+          independent bottom-up reference in which no evaluation is nested in another one, and every formula with
+          the Lean evaluator (`c04.batch`) on the reference values
 """
 import itertools
 import json
@@ -39,48 +46,101 @@ FUNCTIONS = ['hotxlfp.grammarparser.parser:Parser.__init__', 'hotxlfp.grammarpar
              'hotxlfp.tinyemitter:Emitter.on', 'hotxlfp.tinyemitter:Emitter.emit',
              'ply.yacc:LRParser.parse', 'ply.yacc:LRParser.parseopt_notrack', 'ply.lex:Lexer.input',
              'ply.lex:Lexer.token', 'ply.lex:Lexer.clone', 'ply.lex:lex']
-RULE = ('(a) nest: all ordered pairs of a seeded pool of formulas (trees of the C04 and C08 generators with the hook function CB '
-        'wrapped around seeded operands/arguments, plus hand-written ones: ranges, arrays, strings, syntax errors, illegal '
-        'characters, unknown names, raising host functions, the empty formula); for each pair the inner evaluation is '
+RULE = ('(a) nest: all ordered pairs (outer, inner) of a seeded pool of formulas: of the 41 hand-written ones (CB '
+        'calls, cell / range '
+        'references, arrays, strings, syntax errors, illegal characters, unknown names, error literals, raising host '
+        'functions, the '
+        'empty formula) quick takes the first 5 + 9 seeded, thorough all; plus up to 6 (thorough 16; +3 per step of '
+        'scale) generated '
+        'ones, alternately a C04 tree (c04.gen_top, depth 1-3, 30% with white space added) and a C08 tree (c08.gen, depth 1-3, '
+        'error-leaf probability 0.15 / 0.4) with the hook function CB wrapped around each sub-expression with probability 0.4, '
+        'duplicates dropped: up to 20^2 = 400 pairs quick (32^2 at scale 5), 57^2 = 3249 thorough. The outer formula runs on the '
+        'pre-built parser A; A, B and N (built inside a callback) carry the same variables / functions / listeners with values '
+        'shifted by 0 / 1000 / 2000, so an answer from another parser\'s bindings shows; A and B live for the whole process. For '
+        'each pair the inner evaluation is '
         'interposed at EVERY callback position of the outer one (k-th call of the custom function CB, k-th callVariable / '
         'callCellValue / callRangeValue / callFunction emission, as counted in the outer formula\'s solo run) x target in '
-        '{another pre-built parser, the same parser, a parser constructed inside the callback}; depth 2: the inner evaluation\'s '
-        'own callback positions evaluate a third formula (quick: 4 seeded first positions x every second position x a seeded target; '
+        '{the other pre-built parser, the same parser, a parser constructed inside the callback}; depth 2: the inner '
+        'evaluation\'s '
+        'own callback positions evaluate a third formula (seeded from the pool per pair; quick: 4 seeded (first position, target) '
+        'x every second position x a seeded target; '
         'thorough: every first position and target x every second position x every target). '
-        'Oracle: every evaluation\'s record and callback-event sequence equal those of its solo run on the same parser. '
-        '(b) bind: variable / custom function / listener registered on P, Q created before and after: Q reports #NAME? / blank '
-        'and P\'s listeners are not called by Q. (c) sched: 2-3 threads, each on its own parser, every Lexer.input/Lexer.token '
-        'call gated by a schedule (list of thread ids, finished threads skipped, round-robin tail): quick = all interleavings of '
-        'two 4-step evaluations + seeded schedules; thorough = ALL interleavings of pairs of short evaluations (6+6 steps: 924, and '
-        'two error pairs) + seeded 3-thread schedules; the tokens each thread fetched are compared with the Lean model. stress: 4 '
-        'free-running threads x 300 evaluations on distinct parsers, switch interval 1 µs, while a fifth thread keeps constructing '
-        'parsers (each construction rebinds ply\'s process-global lexer) and evaluates on them. '
-        '(d) sheet: seeded random spreadsheets (2-5 x 2-5 cells; constants: integers, 0, blank, logicals, text, the empty text, '
-        'dyadic fractions; formulas over cell references (mixed case, $-forms), ranges written in all four corner orders and '
+        'Oracle: every evaluation\'s record and callback-event sequence equal those of its solo run on a parser of the same '
+        'profile (A / B / a fresh N of a separate solo rig), as many evaluations ran as planned, no callback fires outside an '
+        'evaluation or during an evaluation on another parser. Model: about 6 evenly spaced passing runs per pair (none with the '
+        'empty formula) as interleave.batch on the observed order of lexer operations: tokens fetched per activation; pairs '
+        'without such a run are oracle-only. '
+        '(b) bind (oracle-only; 42 cases = 10 kinds x names x 2 seeded values, an integer in 2..10^6-1, a text): variable (4 names, '
+        'one spelled like a builtin), predefined name overridden (TRUE, NULL), custom function (3 names), function named like a '
+        'builtin (SUM, MAX), callVariable (2 names) / callCellValue / callRangeValue / callFunction listener, once-listener, '
+        'journal (a callFunction listener on P that edits the argument list it is handed, P evaluating the probe once; 4 probes '
+        'with zero-argument and builtin calls). Q created before P and Q created after the registration: the probe on both, and '
+        'on the first once more after P evaluated it, gives the record the first Q gave before the registration (for variable / '
+        'function / callVariable that must be #NAME?, for callCellValue / once blank), P\'s listeners are not called by Q, '
+        'get_variable / get_function on Q do not find the binding. '
+        '(c) sched: 2-3 threads, each on its own long-lived parser (thread i always the same one), every Lexer.input/Lexer.token '
+        'call (= one step) gated by a schedule (list of thread ids, finished threads skipped, round-robin tail): quick = ALL '
+        'interleavings of va*2 | 1/0 (5+5 steps: 252) and of 1 @ | nope (3+3: 20) + 250 x scale seeded schedules (3 threads with '
+        'probability 0.4); thorough = these + ALL of CB(7) | -va+1 (6+6: 924) and 2+*3 | A1+2 (4+5: 126) + 1500 seeded 3-thread '
+        'schedules; seeded ones: formulas from 14 short ones + up to 30 pool formulas under 40 characters, bursts of '
+        '1-3 turns, 30% '
+        'cut to a seeded prefix. Oracle: each thread\'s record equals its solo record on that parser; model (interleave.run): the '
+        'tokens each thread fetched. stress (oracle-only): 4 '
+        'free-running threads x 300 (thorough 900) evaluations of that formula set on distinct parsers, switch '
+        'interval 1 µs, while '
+        'a fifth thread keeps constructing parsers (up to 2000; each construction rebinds ply\'s process-global '
+        'lexer) and evaluates '
+        'va*2+1 on them; every record equals the solo one. cold (oracle-only): 2 cases (thorough 4) of 3 / 4 / 6 '
+        'formulas of a pool '
+        'of 15 (builtin calls, va+1), each run 2 (thorough 3) times in a fresh interpreter: one parser per formula, the FIRST '
+        'evaluations of the process in threads released together by a barrier; repr(result) and error equal those of the formula '
+        'on a fresh parser in the harness process. '
+        '(d) sheet: 200 x scale (thorough 1500) seeded random spreadsheets (2-4 x 2-4 cells, thorough 2-5 x 2-5; constants: '
+        'integers -3..12, 0, blank, logicals, the texts ab / xy / empty, the fractions 2.5 / -0.5 / 0.25; a cell holds a formula '
+        'with probability 0.35 / 0.5 / 0.7 per sheet: depth 1-2 over cell references (letters in mixed case, 12% '
+        '$-forms), integers '
+        '0..12, "ab" / "xy" / TRUE / FALSE, ranges written in all four corner orders and '
         'mixed case that like to share corner labels, SUM / IF / ISBLANK / IFERROR / NULL / + - * / & and comparisons; acyclic by '
         'a seeded direction in which references go, nesting depth <= 2 by levels) served by a host on long-lived parsers P, Q, R '
         'that live for the whole process: the callCellValue listener evaluates the cell\'s formula re-entrantly (seeded: on the '
-        'same parser / alternating between P and Q / on parsers constructed inside the listener / a seeded mix; with or without '
-        'memoising per query) and hands the inner result to the setter (an inner error: seeded, as blank result or as the error '
+        'same parser / alternating between P and Q / on parsers constructed inside the listener, at most 2 per sheet, then '
+        're-used / a seeded mix; 25% memoising per query) and hands the inner result to the setter (an inner error: seeded, as '
+        'blank result or as the error '
         'value); the callRangeValue listener walks start.row.index .. end.col.index (seeded: re-read at every cell / at every '
         'row / read once), resolving every cell the same way, and keeps the Cell objects it received. Runs per sheet: every '
-        'query (a formula cell by reference, ISBLANK / IF(ISBLANK) / SUM of one, the whole sheet and seeded ranges in seeded '
-        'corner orders, a seeded expression) on P; then seeded extra runs in which, at a seeded hold point of the listeners '
-        '(before a cell is resolved, i.e. between two uses of the held objects) one more complete evaluation is interposed - '
+        'query (up to 2 formula cells by reference or inside ISBLANK / IF(ISBLANK) / SUM / +1 / &"|", the whole sheet and 1-2 '
+        'seeded ranges in seeded corner orders under SUM, a seeded expression of depth 2) on P; then 3 (thorough 6) extra runs '
+        'in which, at a seeded hold point of the listeners '
+        '(before a cell is resolved, i.e. between two uses of the held objects; the first one at or after the seeded index that '
+        'keeps the depth <= 2) one more complete evaluation is interposed - '
         'on the same parser, nested on parser R, or on R in ANOTHER THREAD while the first thread waits (one forced '
-        'interleaving per hold point) - its formula half of the time a range that shares a written corner label with a range '
-        'of the sheet, the other corner anywhere, in either order; every 25th sheet (thorough: every 4th) sweeps EVERY hold '
+        'interleaving per hold point; the only way for a formula that itself nests to depth 2) - its formula half of the time a '
+        'range that shares a written corner label with a range '
+        'of the sheet, the other corner anywhere, in either order, else a seeded range, a formula cell or a seeded expression; '
+        'every 25th sheet (thorough: every 4th) sweeps EVERY hold '
         'point of one query x the three ways. Oracle: every evaluation that ran (query, nested, interposed, other thread) gives '
         'the record and makes the lookups (labels, coordinates, values set) that the same formula gives in the reference: the '
         'sheet evaluated bottom-up, every formula ALONE on a reference parser the host never sees (a fresh one per formula for '
         'every 5th sheet and the fixed witnesses, else one fresh parser per sheet used strictly sequentially), the values of '
-        'the cells it mentions computed before and supplied as plain constants; and the Cell objects a listener holds read the '
-        'same after every evaluation that ran while it was using them as when it received them. Model: the Lean evaluator on '
-        'every formula of the sheet with the cells / ranges bound to the reference values (formulas in which text reaches '
-        'arithmetic excepted). 4 fixed witnesses of formerly missed changes are always run. '
-        'Non-trivial = a nested evaluation actually ran / the schedule switches between unfinished threads.')
+        'the cells it mentions computed before and supplied as plain constants; the Cell objects a listener holds read the '
+        'same after every evaluation that ran while it was using them as when it received them; no listener fires outside an '
+        'evaluation or on another parser\'s evaluation; a run of more than 4000 evaluations or a range walk of more than 200000 '
+        'cells fails as run-away. Model (c04.batch): the Lean evaluator on '
+        'every formula of the sheet with the cells / ranges bound to the reference values, its record against the one observed '
+        'inside the running sheet and the one alone (floats: 8 ulps or 1e-9 x max(1,|v|); model answers without opinion skipped; '
+        'excepted: formulas with & beside another operator / function and formulas that look up text other than ab / xy / empty / '
+        'blank / filled). 4 fixed witness sheets (regression cases) are always run. '
+        'search (proof or correspondence broke, no failing input yet): the whole generation again at scale 3, oracle only, until '
+        'the first failure. Records are compared exactly (type and repr), only the sheet model comparison has a tolerance. '
+        'Time limits are wall-clock (time.time): 180 s per sched case, 120 s stress, 120 s per cold process, '
+        '60 s per other-thread sheet evaluation; exceeded = harness error (exit 2), never a verdict. '
+        'Non-trivial = nest / sheet: a nested (or other-thread) evaluation actually ran; sched: the effective order switches '
+        'threads at least twice; bind: the binding is live on P (P answers differently or its listener was called); stress, cold: '
+        'always. Bulk counting (weight): a nest / sheet case counts every evaluation (sheet: reference runs included), every run '
+        'with nesting and every model comparison it made; stress counts its evaluations and constructed parsers.')
 TRUSTED = ['granularity: the controlled scheduler and the Lean model interleave at lexer operations (Lexer.input / Lexer.token); '
-           'interleavings inside these methods (bytecode level) are exercised only by the free-running stress test',
+           'interleavings inside these methods (bytecode level) are exercised only by the free-running stress and '
+           'cold-start tests',
            'CPython object internals (GIL atomicity of dict/list operations, copy.copy in Lexer.clone) are not modelled',
            'ply keeps the LR stacks in locals of LRParser.parseopt_notrack; the attributes it leaves on the LRParser object '
            '(token, statestack, symstack, state, errorok) are never read back because p_error always raises - by inspection, '
@@ -88,22 +148,46 @@ TRUSTED = ['granularity: the controlled scheduler and the Lean model interleave 
            'the machine step of an activation (LR automaton + semantic actions) is a parameter of the Lean model; the driver '
            'comparison instantiates only the lexer side (token sequences), with the number of fetches of each activation taken '
            'from its SOLO run on the real implementation',
+           'the taps: while a nest / sched case or one of their solo runs goes on, ply.lex.Lexer.input and '
+           'Lexer.token are replaced (class attributes) by '
+           'wrappers that attribute each call to the evaluation frame on top of the stack / to the calling thread and, in sched '
+           'cases, make it wait for its turn; every lexer access of the library is assumed to go through these two methods',
+           'solo runs are the yardstick and are taken once per (formula, parser profile / thread parser) and cached; the thread '
+           'parsers and the pre-built parsers A, B, P, Q, R serve all cases of the process, so the yardstick itself is taken on '
+           'parsers with a history; cold-start cases are measured against the warm harness process',
+           'the wall-clock limits of the scheduler, the stress, cold-start and other-thread runs are harness errors, not verdicts',
            'sheet cases: the Lean model has no host that evaluates inside a listener; the model comparison binds the cells and '
            'ranges of every formula to the values of the bottom-up reference run of the REAL implementation (inner outcomes are '
-           'data for the model) and compares the model\'s record with the record observed inside the running sheet and alone',
+           'data for the model) and compares the model\'s record with the record observed inside the running sheet and alone, '
+           'floats within 8 ulps or 1e-9 x max(1,|v|) (the model sums exactly, Python left to right); formulas in which '
+           'text may reach '
+           'arithmetic (dateutil reads "7-6" as a date) and model answers without opinion are not compared',
            'sheet cases: the harness\'s own reading of a formula text (which cells a formula mentions, for the bottom-up order) '
            'is a regular expression over texts its own generator wrote; a lookup the text does not announce aborts the run '
            'as a harness error',
            'sheet cases with another thread: one forced interleaving per hold point (thread 1 up to the hold point, thread 2 '
            'completely, thread 1 to the end); finer interleavings of such hosts are not enumerated']
-ASSUMPTIONS = ['"outcome" = the record returned by Parser.parse; the sequence of callback events of an evaluation is compared too '
-               '(an evaluation that made different host calls was influenced)',
+ASSUMPTIONS = ['"outcome" = the record returned by Parser.parse, compared exactly (type and repr of result and '
+               'error); in nest and '
+               'sheet cases the sequence of callback events of an evaluation is compared too '
+               '(an evaluation that made different host calls was influenced); a planned nested evaluation that does not start, '
+               'and a listener that fires outside any evaluation or during an evaluation on another parser, count as violations',
                'host callbacks return values that do not depend on the nested evaluation (the hook function is the identity); '
                'the solo run of the outer formula uses the same callbacks with the nested evaluation switched off',
                'threads run on DISTINCT parser objects (the statement does not promise one parser object to be usable from '
-               'two threads at once)',
+               'two threads at once); constructing parsers in one thread while others evaluate, and the very first evaluations '
+               'of a process made in several threads at once, are read as covered by "whatever the interleaving"',
+               'bind: "Q" is both a parser created before P and one created after the registration; invisible = Q answers the '
+               'probe as it did before the registration (#NAME? for variable / function / callVariable, blank for a cell, '
+               'merely unchanged for predefined names, builtin names, ranges, callFunction and journal), P\'s '
+               'listeners are not called and '
+               'get_variable / get_function on Q raise KeyError (an overridden predefined name may keep its own value on Q)',
+               'bind, journal: the argument list handed to a callFunction listener belongs to that evaluation: a host '
+               'that edits it '
+               'on P must not change what Q computes (what P itself computes afterwards is not judged)',
                'sheet cases: a listener that evaluates the formula of a cell and hands its result to the setter is a host '
-               'whose answer depends on the nested evaluation only through that evaluation\'s outcome; "the outcome it yields when '
+               'whose answer depends on the nested evaluation only through that evaluation\'s outcome; "the outcome '
+               'it yields when '
                'run alone" is therefore computed bottom-up: the formula on a parser of the reference, the outcomes of the cells '
                'it mentions supplied as constants. Sheets are generated with nesting depth <= 2 (query -> formula cell -> formula '
                'cell), the depth the statement quantifies over; an evaluation in another thread may itself nest to that depth',
@@ -111,6 +195,9 @@ ASSUMPTIONS = ['"outcome" = the record returned by Parser.parse; the sequence of
                'change their label / coordinates while the listener that received them is still running, because another '
                'evaluation ran in between, count as one evaluation influencing the other (checked only within the event, not '
                'after the listener returned)',
+               'sheet cases: a host that is served a finite acyclic sheet makes finitely many evaluations; a top-level run that '
+               'exceeds 4000 evaluations or walks more than 200000 range cells counts as a violation (run-away), not '
+               'as a harness error',
                'the reference parser of a sheet may serve several formulas one after the other (sequential reuse of a parser '
                'is not this property\'s subject); every 5th sheet uses a fresh parser per formula']
 EXHAUSTIVE = {'quick': False, 'thorough': False}
@@ -1610,7 +1697,7 @@ def cases(rng, ctx):
         for name in names[what]:
             for val in [rng.randrange(2, 10 ** 6), 'v%d' % rng.randrange(100)]:
                 out.append({'kind': 'bind', 'what': what, 'name': name, 'value': val})
-    # ---- (d) cold start: the first evaluations of a process, in threads
+    # ---- (c) cold start: the first evaluations of a process, in threads
     cold_pool = ['SUM(1,2)', 'LEN("ab")', 'MAX(va,1)', 'IF(TRUE,1,2)', 'ROUND(2.567,1)', 'UPPER("a")', 'DATE(2020,1,2)', 'ABS(-va)',
                  'CONCATENATE("a","b")', 'AND(TRUE,FALSE)', 'va+1', 'DEC2HEX(255)', 'PV(0.05,10,100)', 'MATCH(2,{1,2,3},0)', 'ISBLANK(va)']
     for _ in range(4 if thorough else 2):
